@@ -101,5 +101,9 @@ func corpus() []caseInput {
 			Groups: []gGrp{{"g1", l("IP_10.1.1.1")}, {"g2", l("IP_10.1.1.4")}}, Addrs: A, Svcs: S},
 		gVsys{Rules: []gRule{ru("r1", l("g1", "g2", "IP_10.1.1.5"), l("any"), l("tcp 80"))},
 			Groups: []gGrp{{"g1", l("IP_10.1.1.1")}, {"g2", l("IP_10.1.1.2")}}, Addrs: A, Svcs: S}))
+	// F-C03e: a list mixing a group with an address; device and target name the group differently
+	cs = append(cs, pair("corpus:F-C03e",
+		gVsys{Rules: []gRule{ru("r1", l("IP_10.1.1.1", "g0"), l("any"), l("any"))}, Groups: []gGrp{{"g0", l("IP_10.1.1.2")}}, Addrs: A[:2]},
+		gVsys{Rules: []gRule{ru("r1", l("G0", "IP_10.1.1.1"), l("any"), l("any"))}, Groups: []gGrp{{"G0", l("IP_10.1.1.2")}}, Addrs: A[:2]}))
 	return cs
 }
